@@ -101,8 +101,11 @@ func New(
 	}
 	/* Set up a timer to unsilence the shell after there's been a lull. */
 	s.silenceTimer = time.AfterFunc(0, func() {
+		defer verifAt("timer:done")
+		verifAt("timer:lock")
 		s.wL.Lock()
 		defer s.wL.Unlock()
+		verifAt("timer:body")
 
 		/* If we're called during init, don't actually do anything. */
 		if s.lastPlainWrite.IsZero() {
@@ -123,8 +126,12 @@ func New(
 	s.t.ControlCharacterCallback = func(key rune) {
 		switch key {
 		case 0x0F: /* ^O, silence output for a bit. */
+			verifAt("key")
+			defer verifAt("mute:done")
+			verifAt("mute:lock")
 			s.wL.Lock()
 			defer s.wL.Unlock()
+			verifAt("mute:body")
 			/* Don't double-pause. */
 			if s.silenced {
 				go s.Logf(ColorRed, false, "Already muted")
@@ -298,8 +305,11 @@ func (s *Shell) handleOutput(ctx context.Context) error {
 // writePlain writes a plain message to the terminal, assuming the terminal's
 // not being silenced.
 func (s *Shell) writePlain(line string) error {
+	defer verifAt("plain:done")
+	verifAt("plain:lock")
 	s.wL.Lock()
 	defer s.wL.Unlock()
+	verifAt("plain:body")
 
 	/* If we've been told to be quiet, make sure we're not
 	doing this too fast. */
@@ -322,8 +332,11 @@ func (s *Shell) Logf(
 	format string,
 	v ...any,
 ) (int, error) {
+	defer verifAt("log:done")
+	verifAt("log:lock")
 	s.wL.Lock()
 	defer s.wL.Unlock()
+	verifAt("log:body")
 	return logf(
 		s.t,
 		s.t.Escape,
